@@ -196,6 +196,11 @@ func (j *Joe) Shutdown(ctx context.Context) (err error) {
 }
 
 func (j *Joe) removeSubscriber(sub subscriber) {
+	if _, ok := j.subscribers[sub]; !ok {
+		// Already removed (and closed) after a failed Send or Flush: an unsubscription
+		// racing with that failure must not close the channel a second time.
+		return
+	}
 	delete(j.subscribers, sub)
 	close(sub)
 }
